@@ -1655,6 +1655,76 @@ theorem parseInit_token (ls : List Log) (pos : Nat) :
 
 end HttpExchange
 
+/-! ### one `process()` call at collector-operation level: the order of the calls does not matter -/
+
+theorem collect_wf : ∀ (ops : List COp) (a : Acc), ops.any isRaiseOp = false →
+    (a.data = none → (ops.filter isEmitOp).length ≤ 1) → (a.data ≠ none → ops.filter isEmitOp = []) →
+    ∃ a', collect true false a ops = (a', none) ∧ a'.fin = (a.fin || finishes ops) ∧
+      a'.data = (match a.data with | some b => some b | none => batchOf ops) := by
+  intro ops
+  induction ops with
+  | nil => intro a _ _ _; exact ⟨a, rfl, by simp [finishes], by cases a.data <;> rfl⟩
+  | cons op r ih =>
+    intro a hr h1 h2
+    have hr' : r.any isRaiseOp = false := by
+      simp only [List.any_cons, Bool.or_eq_false_iff] at hr; exact hr.2
+    cases op with
+    | log l =>
+      simp only [collect]
+      cases hd : a.data with
+      | none =>
+        obtain ⟨a', e1, e2, e3⟩ := ih { a with pre := a.pre ++ [l] } hr'
+          (fun _ => by simpa [isEmitOp] using h1 hd) (fun hne => absurd hd hne)
+        exact ⟨a', by simpa [hd] using e1, by simpa [finishes, isFinishOp] using e2, by simpa [hd, batchOf] using e3⟩
+      | some b =>
+        obtain ⟨a', e1, e2, e3⟩ := ih { a with post := a.post ++ [l] } hr'
+          (fun hn => by simp [hd] at hn) (fun _ => by simpa [isEmitOp] using h2 (by simp [hd]))
+        exact ⟨a', by simpa [hd] using e1, by simpa [finishes, isFinishOp] using e2, by simpa [hd] using e3⟩
+    | emit b =>
+      cases hd : a.data with
+      | some x => have := h2 (by simp [hd]); simp [isEmitOp] at this
+      | none =>
+        simp only [collect, hd, Bool.false_and, Bool.false_eq_true, if_false]
+        have hno : r.filter isEmitOp = [] := by
+          have := h1 hd
+          simp only [List.filter_cons, isEmitOp, if_true, List.length_cons] at this
+          exact List.length_eq_zero_iff.1 (by omega)
+        obtain ⟨a', e1, e2, e3⟩ := ih { a with data := some b } hr' (fun hn => by simp at hn) (fun _ => hno)
+        exact ⟨a', e1, by simpa [finishes, isFinishOp] using e2, by simpa [batchOf] using e3⟩
+    | finish =>
+      simp only [collect, if_true]
+      obtain ⟨a', e1, e2, e3⟩ := ih { a with fin := true } hr'
+        (fun hn => by simpa [isEmitOp] using h1 hn) (fun hne => by simpa [isEmitOp] using h2 hne)
+      refine ⟨a', e1, ?_, ?_⟩
+      · rw [e2]; simp [finishes, isFinishOp]
+      · rw [e3]; cases a.data <;> simp [batchOf]
+    | raise e => simp [isRaiseOp] at hr
+
+/-- the action a well-formed step amounts to does not depend on the order of its calls -/
+theorem normalize_act (ops : List COp) (h : WellFormedStep ops) :
+    (normalizeWith true false ops).act =
+      (match batchOf ops, finishes ops with
+       | some b, true => .emitFinish b
+       | some b, false => .emit b
+       | none, true => .finish
+       | none, false => .nothing) := by
+  obtain ⟨a', e1, e2, e3⟩ := collect_wf ops ⟨[], none, [], false⟩ h.2 (fun _ => h.1) (fun hne => absurd rfl hne)
+  simp only [Bool.false_or] at e2 e3
+  unfold normalizeWith
+  rw [e1]
+  simp only [e2, e3]
+  cases batchOf ops <;> cases finishes ops <;> rfl
+
+theorem emitted_normalize (steps : List (List COp)) (h : ∀ s ∈ steps, WellFormedStep s) :
+    emitted (steps.map (normalizeWith true false)) = emittedOps steps := by
+  induction steps with
+  | nil => rfl
+  | cons s r ih =>
+    have hs := normalize_act s (h s (by simp))
+    have hr := ih (fun x hx => h x (by simp [hx]))
+    simp only [List.map_cons, emitted, emittedOps, hs]
+    cases batchOf s <;> cases finishes s <;> simp [hr]
+
 end Aux
 
 open Aux
@@ -1964,6 +2034,42 @@ theorem C10_exchange_http_session (c : HttpM.Cfg) (m : Method) (inputs : List IB
   · intro ha
     rw [key, c10.2.2.1, (c10.2.2.2.2.1 ha).1]
     simp [playedFrom]
+
+/-- the guards of `OutputCollector.emit` / `finish` as extracted: `emit` refuses a SECOND data batch and nothing else —
+in particular not a collector on which `finish()` has already been called -/
+theorem C10_collector_shapes :
+    Gen.C10.emitGuards = ["self._data_batch_idx is not None -> RuntimeError: Only one data batch may be emitted per call"] ∧
+    Gen.C10.finishGuards = ["not self._producer_mode -> RuntimeError: finish() is not allowed on exchange streams; exchange streams must emit exactly one data batch per call"] ∧
+    Gen.C10.emitHelpersDelegate = true ∧ Gen.C10.emitRefusesAfterFinish = false :=
+  ⟨rfl, rfl, rfl, rfl⟩
+
+/-- "An emit and finish in the same step still delivers that batch", at the level of the calls a state makes and in
+EITHER order, with client logs anywhere in between: for every script of well-formed steps (at most one `emit`, no
+raise; `finish()`, `emit()` and `client_log()` in any order), every init-log list and every HTTP break function, the
+client receives exactly the batches of the steps up to and including the first one that calls `finish()` — a function
+of which calls a step makes, not of their order. -/
+theorem C10_step_order (brk : Nat → Bool) (il : List Log) (steps : List (List COp))
+    (h : ∀ s ∈ steps, WellFormedStep s) :
+    datasOf (Pipe.iterate (logItems il) (steps.map (normalize true))) = emittedOps steps ∧
+    datasOf (Http.iterate brk il (steps.map (normalize true))) = emittedOps steps ∧
+    ∀ s ∈ steps, (normalize true s).act =
+      (match batchOf s, finishes s with
+       | some b, true => .emitFinish b
+       | some b, false => .emit b
+       | none, true => .finish
+       | none, false => .nothing) := by
+  have hn : normalize true = normalizeWith true false := by
+    funext ops; unfold normalize; rw [C10_collector_shapes.2.2.2]
+  have c10 := C10_producer brk il (steps.map (normalize true))
+  rw [hn] at c10 ⊢
+  refine ⟨by rw [c10.1]; exact emitted_normalize steps h, by rw [c10.2.2.1]; exact emitted_normalize steps h, ?_⟩
+  intro s hs
+  exact normalize_act s (h s hs)
+
+example : WellFormedStep [.finish, .log ⟨[], [], []⟩, .emit ⟨2, 1, []⟩] ∧
+    emittedOps [[.emit ⟨1, 1, []⟩], [.finish, .log ⟨[], [], []⟩, .emit ⟨2, 1, []⟩], [.emit ⟨3, 1, []⟩]]
+      = [⟨1, 1, []⟩, ⟨2, 1, []⟩] := by
+  refine ⟨⟨by decide, by decide⟩, rfl⟩
 
 /-! ## Header -/
 
